@@ -25,4 +25,8 @@ VARIANTS = [
     V("N-duration-spelled-out", O, "    num_segments = math.ceil(clip.duration / hop)", "    num_segments = math.ceil((clip.end_time - clip.start_time) / hop)", None),
     V("N-stop-flipped", O, "        if start_time >= clip.end_time:", "        if clip.end_time <= start_time:", None),
     V("N-arithmetic-bound-grid", O, "    num_segments = math.ceil(clip.duration / hop)", "    num_segments = int(clip.duration / hop) + 2", None),
+    # wave 6
+    V("clip-times-rounded-by-validator(G.5)", "src/soundevent/data/clips.py", "from pydantic import BaseModel, Field, model_validator", "from pydantic import BaseModel, Field, field_validator, model_validator", "G.5",
+      also=(("src/soundevent/data/clips.py", "    @model_validator(mode=\"before\")\n    def _validate_times(cls, values):", "    @field_validator(\"start_time\", \"end_time\")\n    def _microseconds(cls, v):\n        return round(v, 6)\n\n    @model_validator(mode=\"before\")\n    def _validate_times(cls, values):"),)),
+    V("clip-before-validator-rewrites(G.5)", "src/soundevent/data/clips.py", "            raise ValueError(\"start_time must be less than end_time\")\n        return values", "            raise ValueError(\"start_time must be less than end_time\")\n        return {**values, \"start_time\": round(values[\"start_time\"], 6)}", "G.5"),
 ]
